@@ -153,3 +153,199 @@ Proof.
       * unfold pbit. destruct (Z.leb_spec 0 (p - j - w)); [lia|]. reflexivity.
 Qed.
 End JoinLoop.
+
+Lemma cdiv64_shift l : Z.shiftr (Z.land (l + 63) (-64)) 6 = cdiv64 l.
+Proof. rewrite land_m64, shiftr6. unfold cdiv64. rewrite Z.mul_comm, Z.div_mul by lia. reflexivity. Qed.
+
+Lemma cdiv64_bounds n : n <= 64 * cdiv64 n < n + 64.
+Proof.
+  unfold cdiv64. pose proof (Z.div_mod (n + 63) 64 ltac:(lia)).
+  pose proof (Z.mod_pos_bound (n + 63) 64 ltac:(lia)). lia.
+Qed.
+
+Lemma words_ok_repeat0 n : words_ok (repeat 0 n).
+Proof.
+  apply Forall_forall. intros x Hx. apply repeat_spec in Hx. subst. unfold word_ok. lia.
+Qed.
+
+Lemma make_words_ok n : 0 <= n ->
+  make_words n = Some (repeat 0 (Z.to_nat n)) /\ zlen (repeat 0 (Z.to_nat n)) = n.
+Proof.
+  intros Hn. unfold make_words. destruct (Z.ltb_spec n 0); [lia|]. split; [reflexivity|].
+  unfold zlen. rewrite repeat_length. lia.
+Qed.
+
+(** Join: never panics on a legal width; result length; every bit of the result *)
+Theorem Join_bits vs w : width_ok w ->
+  exists r, Join vs w = Some r /\ words_ok r /\ zlen r = cdiv64 (zlen vs * w) /\
+    forall p, 0 <= p -> tb r p = pbit vs w p.
+Proof.
+  intros Hw. pose proof (w_pos w Hw) as Hwp. pose proof (zlen_nonneg vs) as Hv.
+  unfold Join. rewrite cdiv64_shift. rewrite (Z.mul_comm w).
+  set (m := zlen vs * w). assert (Hm : 0 <= m) by (unfold m; nia).
+  pose proof (cdiv64_bounds m) as Hc.
+  destruct (make_words_ok (cdiv64 m)) as [E L]; [lia|]. rewrite E.
+  destruct (Join_loop_spec w Hw vs 0 (repeat 0 (Z.to_nat (cdiv64 m)))) as (r' & E' & L' & O' & T').
+  { lia. } { apply words_ok_repeat0. } { rewrite L. fold m. lia. }
+  exists r'. split; [exact E'|]. split; [exact O'|]. split.
+  - unfold zlen in *. rewrite L'. exact L.
+  - intros p Hp. rewrite T' by exact Hp. rewrite tb_repeat0. cbn [orb]. f_equal. lia.
+Qed.
+
+Theorem Join_spec_holds vs w : width_ok w -> exists r, Join vs w = Some r /\ spec_Join vs w r.
+Proof.
+  intros Hw. pose proof (w_pos w Hw) as Hwp.
+  destruct (Join_bits vs w Hw) as (r & E & O & L & T).
+  exists r. split; [exact E|]. split; [exact O|]. split; [exact L|].
+  pose proof (cdiv64_bounds (zlen vs * w)) as Hc. rewrite <- L in Hc.
+  assert (Hpl : Z.of_nat (length (packed vs w)) = zlen vs * w).
+  { rewrite packed_length, Nat2Z.inj_mul, Z2Nat.id by lia. reflexivity. }
+  apply flat_eq_by_tb.
+  - rewrite app_length. unfold zeros. rewrite repeat_length.
+    set (m := zlen vs * w) in *. unfold zlen in *. lia.
+  - intros n _. rewrite nth_packed_zeros by lia. apply T. lia.
+Qed.
+
+(** the statement with the truncation written out: [bits w (v mod 2^w)] *)
+Lemma packed_mod vs w : 0 <= w ->
+  packed vs w = concat (map (fun v => bits (Z.to_nat w) (v mod 2 ^ w)) vs).
+Proof.
+  intros Hw. unfold packed. f_equal. apply map_ext. intros v.
+  pose proof (bits_mod (Z.to_nat w) v) as H. rewrite Z2Nat.id in H by exact Hw. now rewrite H.
+Qed.
+
+Lemma testbit_mod_pow2 x w t : 0 <= w -> 0 <= t ->
+  Z.testbit (x mod 2 ^ w) t = (t <? w) && Z.testbit x t.
+Proof.
+  intros Hw Ht. destruct (Z.ltb_spec t w); cbn [andb].
+  - apply Z.mod_pow2_bits_low. lia.
+  - apply Z.mod_pow2_bits_high. lia.
+Qed.
+
+(** Getw of a joined bitmap returns the low [w] bits of element [i] *)
+Theorem Getw_Join vs w : width_ok w ->
+  exists r, Join vs w = Some r /\ forall i, 0 <= i < zlen vs -> Getw r i w = Some (spec_Getw vs w i).
+Proof.
+  intros Hw. pose proof (w_pos w Hw) as Hwp.
+  destruct (Join_bits vs w Hw) as (r & E & O & L & T).
+  exists r. split; [exact E|]. intros i Hi.
+  destruct (width_fits w i Hw) as [_ Hfit].
+  unfold Getw. rewrite shiftr6, land63. set (j := i * w) in *.
+  assert (Hj0 : 0 <= j) by (unfold j; nia).
+  assert (Hjm : 0 <= j mod 64 < 64) by (apply Z.mod_pos_bound; lia).
+  pose proof (cdiv64_bounds (zlen vs * w)) as Hc. rewrite <- L in Hc.
+  assert (Hjr : 0 <= j < 64 * zlen r) by (unfold j; nia).
+  destruct (word_at r j O Hjr) as (word & Hn & Hne & Hword). rewrite Hn.
+  destruct (Z.ltb_spec w 0); [lia|]. destruct (Z.ltb_spec 64 w); [lia|]. cbn [orb].
+  f_equal. rewrite shr64_div by lia. rewrite land_mask by lia. unfold spec_Getw.
+  apply Z.bits_inj'. intros t Ht. rewrite !testbit_mod_pow2 by lia.
+  destruct (Z.ltb_spec t w) as [Htw|Htw]; cbn [andb]; [|reflexivity].
+  rewrite Z.div_pow2_bits by lia.
+  rewrite <- (pbit_elem vs w i t) by lia. fold j. rewrite <- T by lia.
+  unfold tb.
+  pose proof (Z.div_mod j 64 ltac:(lia)) as Dj.
+  assert (Hq : (j + t) / 64 = j / 64).
+  { symmetry. apply (Z.div_unique (j + t) 64 (j / 64) (j mod 64 + t)); lia. }
+  assert (Hr : (j + t) mod 64 = j mod 64 + t).
+  { symmetry. apply (Z.mod_unique (j + t) 64 (j / 64) (j mod 64 + t)); lia. }
+  rewrite Hq, Hr. rewrite (nth_error_nth _ _ 0 Hne). f_equal. lia.
+Qed.
+
+(** * Slice *)
+Section SliceLoop.
+Variables (words : list Z) (from to : Z).
+Hypothesis Hwords : words_ok words.
+Hypothesis Hfrom : 0 <= from.
+Hypothesis Hto : to <= 64 * zlen words.
+
+Lemma Slice_loop_spec : forall fuel i r,
+  from <= i <= to -> to - i <= Z.of_nat fuel -> words_ok r -> to - from <= 64 * zlen r ->
+  exists r', Slice_loop fuel words from i to r = Some r' /\ length r' = length r /\ words_ok r' /\
+    forall q, 0 <= q ->
+      tb r' q = tb r q || ((i - from <=? q) && (q <? to - from) && tb words (from + q)).
+Proof.
+  induction fuel as [|fuel IH]; intros i r Hi Hf Hr Hlen.
+  - assert (i = to) by lia. subst i. cbn [Slice_loop]. rewrite Z.ltb_irrefl.
+    exists r. split; [reflexivity|]. split; [reflexivity|]. split; [exact Hr|].
+    intros q Hq. destruct (Z.leb_spec (to - from) q), (Z.ltb_spec q (to - from)); try lia;
+      cbn [andb]; now rewrite orb_false_r.
+  - cbn [Slice_loop]. destruct (Z.ltb_spec i to) as [Hlt|Hge].
+    2:{ exists r. split; [reflexivity|]. split; [reflexivity|]. split; [exact Hr|].
+        intros q Hq. destruct (Z.leb_spec (i - from) q), (Z.ltb_spec q (to - from)); try lia;
+          cbn [andb]; now rewrite orb_false_r. }
+    rewrite shiftr6, land63.
+    destruct (word_at words i Hwords ltac:(lia)) as (w & Hn & Hne & Hw). rewrite Hn.
+    assert (Him : 0 <= i mod 64 < 64) by (apply Z.mod_pos_bound; lia).
+    assert (Hbit : forall k, 0 <= k < 64 -> shl64 1 k = 2 ^ k /\ 0 <= 2 ^ k < 2 ^ 64).
+    { intros k Hk. assert (0 < 2 ^ k < 2 ^ 64).
+      { split; [apply Z.pow_pos_nonneg; lia|apply Z.pow_lt_mono_r; lia]. }
+      split; [|lia]. rewrite shl64_small by lia. lia. }
+    destruct (Hbit (i mod 64) Him) as [Es _]. rewrite Es.
+    rewrite land_bit_testbit by lia.
+    assert (Htbi : tb words i = Z.testbit w (i mod 64)).
+    { unfold tb. now rewrite (nth_error_nth _ _ 0 Hne). }
+    destruct (Z.testbit w (i mod 64)) eqn:Eb.
+    + (* the bit is set: r[j>>6] |= 1 << (j&63) *)
+      destruct (Z.eqb_spec (2 ^ (i mod 64)) 0) as [E0|_].
+      { pose proof (Z.pow_pos_nonneg 2 (i mod 64)). lia. }
+      rewrite shiftr6, land63. set (j := i - from).
+      assert (Hjm : 0 <= j mod 64 < 64) by (apply Z.mod_pos_bound; lia).
+      destruct (Hbit (j mod 64) Hjm) as [Ej Hjr]. rewrite Ej.
+      assert (Hk : 0 <= j / 64 < zlen r).
+      { split; [apply Z.div_pos; unfold j; lia|]. apply Z.div_lt_upper_bound; unfold j; lia. }
+      destruct (or_at_spec r (j / 64) _ Hr Hjr Hk) as (r1 & E1 & L1 & O1 & T1). rewrite E1.
+      destruct (IH (i + 1) r1) as (r' & E' & L' & O' & T').
+      { lia. } { lia. } { exact O1. } { unfold zlen in *. rewrite L1. lia. }
+      exists r'. split; [exact E'|]. split; [congruence|]. split; [exact O'|].
+      intros q Hq. rewrite T', T1 by exact Hq. rewrite <- orb_assoc. f_equal.
+      rewrite Z.pow2_bits_eqb by lia. rewrite (Z.eqb_sym (j mod 64)), pos_eq_split.
+      destruct (Z.eqb_spec q j) as [->|Hne'].
+      * unfold j. replace (from + (i - from)) with i by lia. rewrite Htbi.
+        destruct (Z.leb_spec (i - from) (i - from)); [|lia].
+        destruct (Z.ltb_spec (i - from) (to - from)); [|lia]. reflexivity.
+      * cbn [orb]. unfold j in *.
+        destruct (Z.leb_spec (i + 1 - from) q), (Z.leb_spec (i - from) q); try lia; reflexivity.
+    + rewrite Z.eqb_refl.
+      destruct (IH (i + 1) r) as (r' & E' & L' & O' & T').
+      { lia. } { lia. } { exact Hr. } { exact Hlen. }
+      exists r'. split; [exact E'|]. split; [exact L'|]. split; [exact O'|].
+      intros q Hq. rewrite T' by exact Hq. f_equal.
+      destruct (Z.eq_dec q (i - from)) as [->|Hne'].
+      * replace (from + (i - from)) with i by lia. rewrite Htbi. now rewrite !andb_false_r.
+      * destruct (Z.leb_spec (i + 1 - from) q), (Z.leb_spec (i - from) q); try lia; reflexivity.
+Qed.
+End SliceLoop.
+
+Theorem Slice_bits ws from to : words_ok ws -> 0 <= from <= to -> to <= 64 * zlen ws ->
+  exists r, Slice ws from to = Some r /\ words_ok r /\ zlen r = cdiv64 (to - from) /\
+    forall q, 0 <= q -> tb r q = (q <? to - from) && tb ws (from + q).
+Proof.
+  intros Hws Hft Hto. unfold Slice. rewrite cdiv64_shift.
+  pose proof (cdiv64_bounds (to - from)) as Hc.
+  destruct (make_words_ok (cdiv64 (to - from))) as [E L]; [lia|]. rewrite E.
+  destruct (Slice_loop_spec ws from to Hws ltac:(lia) Hto (Z.to_nat (to - from)) from
+              (repeat 0 (Z.to_nat (cdiv64 (to - from))))) as (r' & E' & L' & O' & T').
+  { lia. } { lia. } { apply words_ok_repeat0. } { rewrite L. lia. }
+  exists r'. split; [exact E'|]. split; [exact O'|]. split.
+  - unfold zlen in *. rewrite L'. exact L.
+  - intros q Hq. rewrite T' by exact Hq. rewrite tb_repeat0. cbn [orb].
+    destruct (Z.leb_spec (from - from) q); [|lia]. reflexivity.
+Qed.
+
+Theorem Slice_spec_holds ws from to : words_ok ws -> 0 <= from <= to -> to <= 64 * zlen ws ->
+  exists r, Slice ws from to = Some r /\ spec_Slice ws from to r.
+Proof.
+  intros Hws Hft Hto.
+  destruct (Slice_bits ws from to Hws Hft Hto) as (r & E & O & L & T).
+  exists r. split; [exact E|]. split; [exact O|]. split; [exact L|].
+  pose proof (cdiv64_bounds (to - from)) as Hc. rewrite <- L in Hc.
+  assert (Hfl : length (firstn (Z.to_nat (to - from)) (skipn (Z.to_nat from) (flat ws))) = Z.to_nat (to - from)).
+  { rewrite firstn_length_le; [reflexivity|]. rewrite skipn_length, flat_length. unfold zlen in Hto. lia. }
+  apply flat_eq_by_tb.
+  - rewrite app_length, Hfl. unfold zeros. rewrite repeat_length. unfold zlen in *. lia.
+  - intros n _. rewrite T by lia.
+    destruct (Z.ltb_spec (Z.of_nat n) (to - from)) as [H|H]; cbn [andb].
+    + rewrite app_nth1 by lia. rewrite nth_firstn_lt by lia. rewrite nth_skipn, nth_flat_tb.
+      f_equal. lia.
+    + rewrite app_nth2 by lia. unfold zeros. now rewrite nth_repeat_false.
+Qed.
